@@ -439,9 +439,9 @@ def main(tier):
     rng = H.rng(PROP)
     P = default_precision(prog)
     if tier == 'quick':
-        dens = sorted(set(list(range(1, 101)) + [2 ** i * 5 ** j for i in range(0, 21) for j in range(0, 9) if 2 ** i * 5 ** j <= 10 ** 6][::3]
+        dens = sorted(set(list(range(1, 401)) + [2 ** i * 5 ** j for i in range(0, 21) for j in range(0, 9) if 2 ** i * 5 ** j <= 10 ** 6][::3]
                           + [97, 113, 999, 1001, 10 ** 19 - 1, 10 ** 19 + 1, 2 ** 64 - 1, 2 ** 64 + 1, 2 ** 144] + [rng.randint(2, 10 ** 40) for _ in range(10)]))
-        Kd = 12
+        Kd = 20
     else:
         dens = sorted(set(list(range(1, 2001)) + [2 ** i * 5 ** j for i in range(0, 61) for j in range(0, 31) if 2 ** i * 5 ** j <= 10 ** 24]
                           + [97, 113, 10 ** 19 - 1, 10 ** 19 + 1, 2 ** 64 - 1, 2 ** 64 + 1, 2 ** 144, 5 ** 144] + [rng.randint(2, 10 ** 120) for _ in range(200)]))
